@@ -205,7 +205,7 @@ func parseCompacted(jwsCompact string, opts *jwsParseOpts) (*JSONWebSignature, e
 		return nil, err
 	}
 
-	signature, err := base64.RawURLEncoding.DecodeString(parts[jwsSignaturePart])
+	signature, err := decodeSegment(parts[jwsSignaturePart])
 	if err != nil {
 		return nil, fmt.Errorf("decode base64 signature: %w", err)
 	}
@@ -222,12 +222,22 @@ func parseCompacted(jwsCompact string, opts *jwsParseOpts) (*JSONWebSignature, e
 	}, nil
 }
 
+// decodeSegment decodes a segment of a compact JWS. The base64 decoder silently skips line breaks, a segment with CR or
+// LF in it is not base64url encoded.
+func decodeSegment(segment string) ([]byte, error) {
+	if pos := strings.IndexAny(segment, "\r\n"); pos >= 0 {
+		return nil, base64.CorruptInputError(pos)
+	}
+
+	return base64.RawURLEncoding.DecodeString(segment)
+}
+
 func parseCompactedPayload(jwsPayload string, opts *jwsParseOpts) ([]byte, error) {
 	if len(opts.detachedPayload) > 0 {
 		return opts.detachedPayload, nil
 	}
 
-	payload, err := base64.RawURLEncoding.DecodeString(jwsPayload)
+	payload, err := decodeSegment(jwsPayload)
 	if err != nil {
 		return nil, fmt.Errorf("decode base64 payload: %w", err)
 	}
@@ -240,7 +250,7 @@ func parseCompactedPayload(jwsPayload string, opts *jwsParseOpts) ([]byte, error
 }
 
 func parseCompactedHeaders(parts []string) (jws.Headers, error) {
-	headersBytes, err := base64.RawURLEncoding.DecodeString(parts[jwsHeaderPart])
+	headersBytes, err := decodeSegment(parts[jwsHeaderPart])
 	if err != nil {
 		return nil, fmt.Errorf("decode base64 header: %w", err)
 	}
